@@ -6,6 +6,9 @@ CHECKERS = dict(C01_rt.CHECKERS)
 
 
 def run(ctx):
+    from vf.pyvc import crosscheck_sym
+
+    crosscheck_sym.guard(ctx)  # the symbolic-shape tensor layer against real torch, before the clauses that rest on it
     api.run_vcs(ctx, C01_vc.lens_vcs(), {"C01.P.lens_first_eos": "_lens_from_eos for a symbolic sequence length: result = index of the first eos, or the full length (ghost induction: base, step, use)"})
     api.run_vcs(ctx, C01_vc.dp_vcs(ctx), {"C01.P.dp": "edit_distance / prefix_edit_distances -> _string_matching for SYMBOLIC shapes R, H, N: row[r, n] = D(n, r, min(k, hyp_len)) (and prefix_ers[j, n] = D(n, ref_len, j)) is an inductive invariant of the hypothesis loop (init and preservation by induction over r); result = D(n, ref_len, hyp_len) / every prefix row, padding beyond the hypothesis length, norm convention, equal-cost shortcut = c * unit-cost table; 12 flag configurations"})
     api.run_vcs(ctx, C01_vc.vcs(ctx), {"C01.S.levenshtein": "real edit_distance/prefix_edit_distances source == Wagner-Fischer spec at first-eos lengths, all contents/costs/eos, per shape"},
